@@ -19,8 +19,8 @@ only entries are standalone comments.
 """
 from __future__ import annotations
 
+import datetime
 import decimal
-import itertools
 from typing import Any, Optional
 
 from autobean_refactor import models as M
@@ -54,6 +54,7 @@ POSTING_INDENTS = ['  ', '    ', '\t']
 ENTRY_META_INDENTS = ['  ', '    ', '      ', '\t']
 INDENT_BYS = ['    ', '  ', '\t', ' ']
 RAW_INDENTS = ['   ', '\t\t']
+PAIR_INDENT_BYS_WITH_SIBLINGS = [' ', '\t']   # route pairs under a parent that already has items (indent_by must stay unused)
 TXN_INDENT_BY_SENTINEL = '   '      # on the transaction around a posting parent: must never be used for the posting's meta
 OLD_COMMENT = 'k'                   # text of the comments that are in the document from the start
 
@@ -183,6 +184,8 @@ def apply_step(ctx: Ctx, step: dict, no: int) -> bool:
     r = step['r']
     where = f'{"Posting" if ctx.parent_is_posting else "entry"}'
     minimal = dict(case, steps=case['steps'][:no + 1])
+    if 'built' in minimal:
+        minimal.pop('text', None)
 
     def fail(key: str, text: str) -> bool:
         res.fail(key, f'{describe(case, no)}: {text}', minimal)
@@ -272,7 +275,7 @@ def apply_step(ctx: Ctx, step: dict, no: int) -> bool:
             res.outcomes[f'not judged: sibling items with different indents (implementation copies the {pick} one)'] += 1
         else:
             expected = sib_indents[0]
-            clause = f'C18/created-item-indent-differs-from-sibling-items[{where}]'
+            clause = 'C18/created-item-indent-differs-from-sibling-items[meta-setitem]'
         if judged:
             if created.indent != expected or created.raw_indent.raw_text != expected:
                 return fail(clause, f'new item {step["key"]!r} has indent {created.indent!r}, the rule gives '
@@ -399,28 +402,111 @@ def describe(case: dict, upto: int) -> str:
         else:
             steps.append(f'<{s["on"]}>.{r}_comment = {s["s"]!r}')
     who = 'directive[0].postings[0]' if case['parent'] == 'posting' else 'directive[0]'
+    if 'built' in case:
+        return (f'from_value construction {case["built"]} with indent_by {case["indent_by"]!r} printing '
+                f'{case.get("text")!r}; parent = {who}; ' + '; '.join(steps))
     return f'parse({case["text"]!r}); parent = {who}; parent.indent_by = {case["indent_by"]!r}; ' + '; '.join(steps)
+
+
+_D = datetime.date(2000, 1, 1)
+_ONE = decimal.Decimal(1)
+CTOR_ARGS = {
+    'open': lambda: (_D, 'Assets:Foo'),
+    'close': lambda: (_D, 'Assets:Foo'),
+    'commodity': lambda: (_D, 'USD'),
+    'pad': lambda: (_D, 'Assets:Foo', 'Assets:Bar'),
+    'balance': lambda: (_D, 'Assets:Foo', _ONE, None, 'USD'),
+    'event': lambda: (_D, 'a', 'b'),
+    'query': lambda: (_D, 'a', 'b'),
+    'price': lambda: (_D, 'USD', M.Amount.from_value(_ONE, 'EUR')),
+    'note': lambda: (_D, 'Assets:Foo', 'n'),
+    'document': lambda: (_D, 'Assets:Foo', '/x'),
+    'custom': lambda: (_D, 'x', [_ONE]),
+    'transaction': lambda: (_D, None, 'n', []),
+}
+CTOR_META = [None, {'aa': _ONE}, {'aa': _ONE, 'bb': 'x'}]
+
+
+def build_from_values(ctx: Ctx, case: dict) -> bool:
+    """The parent is made by from_value(..., meta=mapping, indent_by=...) instead of by the parser; the items
+    and comments made from the constructor's plain values fall under the same rule."""
+    b = case['built']
+    res = ctx.res
+    kw: dict = {'indent_by': case['indent_by']} if b['ctor_indent_by'] else {}
+    if CTOR_META[b['n']] is not None:
+        kw['meta'] = dict(CTOR_META[b['n']])
+    if b['lead']:
+        kw['leading_comment'] = OLD_COMMENT
+    if b['trail']:
+        kw['trailing_comment'] = OLD_COMMENT + '\n' + OLD_COMMENT
+    if ctx.parent_is_posting:
+        parent = M.Posting.from_value('Assets:Foo', _ONE, 'USD', indent=b['pindent'], **kw)
+        entry = M.Transaction.from_value(_D, None, 'n', [parent], indent_by=TXN_INDENT_BY_SENTINEL)
+        pind = b['pindent']
+        where = 'Posting'
+    else:
+        entry = parent = getattr(M, ENTRY_CLASSES[case['parent']]).from_value(*CTOR_ARGS[case['parent']](), **kw)
+        pind = ''
+        where = 'entry'
+    f = M.File.from_value([entry])
+    ctx.file, ctx.entry, ctx.parent = f, entry, parent
+    if ctx.parent_is_posting and entry.raw_postings[0] is not parent:
+        raise AssertionError('posting handed to Transaction.from_value is not its first posting')
+    text = tree.pr(f)
+    what = f'{type(parent).__name__}.from_value(..., {", ".join(f"{k}={v!r}" for k, v in kw.items())})'
+    res.transitions += 1
+    want_by = case['indent_by'] if b['ctor_indent_by'] else '    '
+    if parent.indent_by != want_by:
+        res.fail(f'C18/from_value-indent_by-not-kept[{where}]', f'{what}: indent_by afterwards {parent.indent_by!r}', case)
+        return False
+    for it in parent.raw_meta:
+        if it.indent != pind + want_by:
+            res.fail(f'C18/from_value-item-indent-is-not-parent-indent-plus-indent_by[{where}]',
+                     f'{what}: item {it.key!r} has indent {it.indent!r}, parent indent {pind!r}; printed {text!r}', case)
+            return False
+    for cm in (parent.raw_leading_comment, parent.raw_trailing_comment):
+        if cm is not None and (cm.indent != pind or any(not ln.startswith(pind + ';') for ln in cm.raw_text.split('\n'))):
+            res.fail(f'C18/from_value-comment-indent-differs-from-owner[{where}]',
+                     f'{what}: comment {cm.raw_text!r} on an owner with indent {pind!r}; printed {text!r}', case)
+            return False
+    if len(parent.raw_meta) != b['n'] or (parent.raw_leading_comment is None) == b['lead'] or (
+            parent.raw_trailing_comment is None) == b['trail']:
+        raise AssertionError(f'{what} built {text!r}')
+    for k, msg in tree.check_tree(f):
+        res.fail(f'C18/tree-{k}[from_value]', f'{what}: {msg}', case)
+        return False
+    res.outcomes[f'from_value: items at parent indent + indent_by, comments at parent indent [{where}]'] += 1
+    res.states.add(core.h64(text))
+    res.nontrivial.add(core.h64(('built', text, want_by)))
+    case['text'] = text     # for the descriptions only
+    return True
 
 
 def run_case(case: dict) -> core.CaseResult:
     res = core.CaseResult()
+    case = dict(case)
     ctx = Ctx(case, res)
-    f = docs.try_parse(case['text'], M.File)
-    if f is None:
-        raise AssertionError(f'enumerated document is not accepted: {case["text"]!r}')
-    ds = list(f.raw_directives)
-    assert len(ds) == 1, case['text']
-    ctx.file = f
-    ctx.entry = ds[0]
-    if ctx.parent_is_posting:
-        ctx.parent = ctx.entry.raw_postings[0]
-        ctx.entry.indent_by = TXN_INDENT_BY_SENTINEL
+    if 'built' in case:
+        if not build_from_values(ctx, case):
+            return res
+        f = ctx.file
     else:
-        ctx.parent = ctx.entry
-        assert type(ctx.entry).__name__ == ENTRY_CLASSES[case['parent']], (type(ctx.entry), case['parent'])
-    assert ctx.parent.indent_by == '    '       # documented default
-    ctx.parent.indent_by = case['indent_by']
-    res.states.add(core.h64((case['text'], case['indent_by'])))
+        f = docs.try_parse(case['text'], M.File)
+        if f is None:
+            raise AssertionError(f'enumerated document is not accepted: {case["text"]!r}')
+        ds = list(f.raw_directives)
+        assert len(ds) == 1, case['text']
+        ctx.file = f
+        ctx.entry = ds[0]
+        if ctx.parent_is_posting:
+            ctx.parent = ctx.entry.raw_postings[0]
+            ctx.entry.indent_by = TXN_INDENT_BY_SENTINEL
+        else:
+            ctx.parent = ctx.entry
+            assert type(ctx.entry).__name__ == ENTRY_CLASSES[case['parent']], (type(ctx.entry), case['parent'])
+        assert ctx.parent.indent_by == '    '       # documented default
+        ctx.parent.indent_by = case['indent_by']
+        res.states.add(core.h64((case['text'], case['indent_by'])))
     for no, step in enumerate(case['steps']):
         if not apply_step(ctx, step, no):
             break
@@ -509,7 +595,7 @@ def cases(tier: str) -> list[dict]:
                         # the same route twice in a row (fresh key / other comment text the second time)
                         for s1 in firsts:
                             items.append(dict(base, steps=[s1, again(s1)]))
-                    else:
+                    elif n == 0 or ib in PAIR_INDENT_BYS_WITH_SIBLINGS:
                         # every ordered pair of routes
                         for s1 in routes(parent, n, tier, short=True):
                             # the second step may address what the first created
@@ -517,6 +603,24 @@ def cases(tier: str) -> list[dict]:
                                 if s2['r'] == 'meta_set' and s2['key'] == 'aa' and not n:
                                     continue
                                 items.append(dict(base, steps=[s1, s2]))
+    return items
+
+
+def built_cases(tier: str) -> list[dict]:
+    parents = (QUICK_ENTRIES if tier == 'quick' else list(ENTRIES)) + ['posting']
+    items: list[dict] = []
+    for parent in parents:
+        for pi in (POSTING_INDENTS if parent == 'posting' else [None]):
+            for n, lead, trail in [(n, a, b) for n in (0, 1, 2) for a in (False, True) for b in (False, True)]:
+                for ib in INDENT_BYS:
+                    for ctor in ((True, False) if ib == '    ' else (True,)):
+                        built = {'pindent': pi, 'n': n, 'lead': lead, 'trail': trail, 'ctor_indent_by': ctor}
+                        base = {'parent': parent, 'built': built, 'indent_by': ib}
+                        items.append(dict(base, steps=[]))
+                        for s1 in routes(parent, n, tier, short=(tier == 'quick')):
+                            items.append(dict(base, steps=[s1]))
+                            if tier == 'thorough':
+                                items.append(dict(base, steps=[s1, again(s1)]))
     return items
 
 
@@ -530,7 +634,8 @@ def main(run: core.Run) -> None:
                 '(meta[new key]=str/Decimal/None, meta[existing key]=..., raw_meta.append(item with own indent), '
                 'raw_meta_with_comments.insert(0, comment with own indent), leading_/trailing_comment setters on the '
                 'parent, on its first meta item and on the column-0 entry) x one step / two steps in a row '
-                '(quick: the same route twice; thorough: every ordered pair of routes); non-trivial = distinct '
+                '(quick: the same route twice; thorough: every ordered pair of routes); the same parents built by '
+                'from_value(meta=mapping, comments, indent_by) instead of parsed; non-trivial = distinct '
                 '(document, indent_by, step) triples in which a node was created and its indent judged')
     run.bounds.update({
         'parents': parents, 'posting_indents': POSTING_INDENTS, 'entry_meta_indents': ENTRY_META_INDENTS,
@@ -539,7 +644,8 @@ def main(run: core.Run) -> None:
         'indent_by': INDENT_BYS, 'raw_node_indents': RAW_INDENTS, 'steps': '1 and 2',
         'second_step': 'same route' if tier == 'quick' else (
             f'every route (parents {PAIR_PARENTS}, documents ending in a line break; value variations of the printed '
-            'value left out) / same route (the other entry kinds; documents without final line break)'),
+            'value left out; with items present from the start only indent_by 1 blank and TAB) / same route (the other '
+            'entry kinds; documents without final line break)'),
         'final_line_break': [True] if tier == 'quick' else [True, False],
     })
     run.assumptions = [
@@ -550,4 +656,8 @@ def main(run: core.Run) -> None:
         'a comment value is one or two lines; meta values are a string, a Decimal and None',
         'the transaction around a posting parent carries indent_by = 3 blanks, which must never show up',
     ]
-    run.run_cases(run_case, items, 'parent x layout x indent_by x steps', chunk=500)
+    run.run_cases(run_case, items, 'parsed parent x layout x indent_by x steps', chunk=500)
+    run.run_cases(run_case, built_cases(tier), 'parent built by from_value x meta mapping x comments x indent_by x steps', chunk=200)
+    run.bounds['constructed_parents'] = ('every parent kind by from_value with meta mapping of 0/1/2 entries, with/without '
+                                         'leading and trailing comment, indent_by given to the constructor (or left to '
+                                         'the default), then no step / one step' + (' / the same step twice' if tier == 'thorough' else ''))
